@@ -37,6 +37,8 @@ func init() {
 			checkDagMergeAllVisitsAll(c, "R2.12")
 			checkMergeMovesLocalRefOnly(c, "R2.13")
 			checkListCommitsComplete(c, "R2.14")
+			// what is served after a pull is the merged instance: a Resolve in flight during the pull must find it (shared with C18)
+			checkSingleInstance(c, newLockWorld(c.W))
 		})
 	register("C09",
 		"Static shape of the identity history rules: (*Identity).Merge moves the ref only after appending, reports true exactly where it moved the ref, and never refuses after moving it; identity.MergeAll reports Updated/Nothing according to that result, validates before touching refs and keeps going after a refused identity; every store to Identity.versions is an append to the same field or the initialisation of a fresh Identity; Identity.Id reads version 0 only; Identity.Validate and version.Validate contain the documented refusals with the right polarity; identity.read refuses a ref whose name is not the first version's id.",
@@ -60,6 +62,8 @@ func init() {
 			checkUserIdentityResolvedEachCall(c, "R9.11")
 			// an evicted instance can no longer write: a stale handle must not commit on top of an old tip (shared with C11/C18)
 			checkEviction(c)
+			// one loaded instance per identity: two instances commit from their own version lists and the second moves the ref over the first one's commit (shared with C18)
+			checkSingleInstance(c, newLockWorld(c.W))
 			checkValidateAccumulatesAfterTest(c, "R9.4")
 			// what a long-running process serves and edits after a pull is the merged identity
 			checkCacheMergeFold(c, "R2.6")
